@@ -3,6 +3,9 @@
 import json, os
 HERE = os.path.dirname(os.path.dirname(os.path.abspath(__file__)))
 CHECKS = {
+ "C10": dict(cat="fault_enumeration", technique="TLA+ Kastore reader model with exact 64-bit arithmetic: TLC fault enumeration on abstract files; byte-level fault enumeration on real dumps (ASan build) validated by TLC through the layout function and Reader model",
+    text="Kastore.tla transcribes the container layout and kastore's reader as validation steps over abstract files with exact unsigned 64-bit (limb) arithmetic. TLC enumerates, for all small well-formed files, every proper prefix and every interpreted-field substitution by boundary and wrap-around values and proves (bounded) that prefixes are always rejected and that accepted substitutions are exactly the characterised same-extent blind spots. On real dumps every prefix length, every header/descriptor/key byte x 4-7 substitutions, whole-field substitutions and random data bytes are injected and loaded (TableCollection.load, tskit.load, skip_tables, skip_reference_sequence, second object on a stream) in the sanitizer build in isolated workers; TLC validates each (layout, fault, outcome) against the layout classification and the Reader verdict.",
+    note="Known findings (kastore has no integrity check beyond packing) are reported by semantic signature; reserved/padding/minor-version bytes may load an equal object; quick tier uses 2 files, thorough 12.", ref="DESIGN.md §3 C10"),
  "C05": dict(cat="model_checking", technique="TLA+ Stream machine + equality algebra: TLC MC, and TLC trace validation of real dump/load histories on files and pipes, round trips and equals()/assert_equals() under all 64 ignore combinations",
     text="Stream.tla models several stored objects on one stream (Dump appends, Load returns the head and advances by exactly its size, EOF distinct) and defines equals() over the components of a table collection; TLC model-checks FIFO/position/EOF invariants and the reflexive/symmetric/monotone laws. Real histories (1-4 dumps of table collections or tree sequences on a file or pipe, loads until EOF, byte positions after every call) and round trips through path/file/asdict-fromdict/pickle/copy/tree-sequence load, on valid and invalid collections with metadata everywhere, are validated by TLC; equals and assert_equals are evaluated under all 64 ignore_* subsets for pairs differing in chosen components and compared with the definition.",
     note="Column byte equality is computed by the harness and logged as a flag; with a metadata schema set, stored metadata is kept decodable (an undecodable-under-schema object is outside the domain).", ref="DESIGN.md §3 C05"),
